@@ -6,7 +6,7 @@ claim("C01", "lockset + value-provenance (SSA access paths) + channel typestate"
       "enqueued ID and the newID() result are one SSA value; the response copied to a client is the one received on that "
       "activation's own unbuffered channel (single receive site, not in a loop); the agent-facing endpoints use the request ID "
       "of their own call; (backend ID, request ID) travel in the right parameter roles from the pending list to the upload "
-      "headers. no per-request closure, goroutine-in-loop or pool shares scratch memory or loop variables between activations; the App Engine proxy's GET response cache uses one injective key of (user, URL). session numbers are never given back; App Engine blob parts keep their order; the stand-alone proxy forces chunked framing so one request's response cannot be cut short into the next. Not decided: interleavings inside net/http, ID collision probability, payload bytes.")
+      "headers. no per-request closure, goroutine-in-loop or pool shares scratch memory or loop variables between activations; the App Engine proxy's GET response cache uses one injective key of (user, URL). session numbers are never given back; App Engine blob parts keep their order; the stand-alone proxy forces chunked framing so one request's response cannot be cut short into the next; an interim 1xx never latches a writer and a superseded upload attempt cannot take bytes of the retry (shared with C03.X, C06.X). Not decided: interleavings inside net/http, ID collision probability, payload bytes.")
 
 claim("C02", "who-may-write table over resolved mutation sites + sibling tables + construction-site checks",
       "Byte identity through net/http is not decided. Decides that nothing in this repository's code on the request path alters "
@@ -14,7 +14,7 @@ claim("C02", "who-may-write table over resolved mutation sites + sibling tables 
       "*http.Request in the proxy's client path and the agent's handler chain is enumerated), that both hop-by-hop tables equal "
       "the RFC 7230 set, that the backend-facing proxy is httputil.NewSingleHostReverseProxy of a Scheme+Host URL without "
       "Director/Rewrite override, that the request object stored, serialised (Request.Write), parsed (private bufio.Reader) and "
-      "served is one chain of custody, that the fetched reply body stays open until the request was forwarded, that no pooled buffers carry request bytes, that no fetch helper defers the cancel of the context its returned response still needs, that the agent never reads the body of the request it forwards, and that no ServeMux/StripPrefix/TimeoutHandler sits on the pass-through route.")
+      "served is one chain of custody, that the fetched reply body stays open until the request was forwarded, that no pooled buffers carry request bytes, that no fetch helper defers the cancel of the context its returned response still needs, that the agent never reads the body of the request it forwards, that the live value slices of request header fields are not sorted or overwritten in place, and that no ServeMux/StripPrefix/TimeoutHandler sits on the pass-through route.")
 
 claim("C03", "ownership-transfer rule + taint (tokeniser as sanitiser) + partial evaluation of status comparisons + dominance",
       "Byte identity through Response.Write/ReadResponse is not decided. Decides the repository-specific shapes the statement's "
@@ -22,14 +22,14 @@ claim("C03", "ownership-transfer rule + taint (tokeniser as sanitiser) + partial
       "with the writer's fields, directly or through its accessor); declared-trailer names pass a comma tokeniser before being "
       "used as keys; 1xx statuses never latch a ResponseWriter or get published, all final statuses (incl. 101) do — evaluated "
       "for representative statuses of each class; every header/trailer copy is guarded by the hop-by-hop predicate on the same "
-      "key and by no other filter; chunked framing is forced before serialisation; a final status after an interim one is still forwarded (two-call simulation of every ResponseWriter), retries restart through the refusing rewind, the stand-alone proxy forces chunked framing unconditionally, writer types grow no optional net/http interfaces; wrappers forward their own status and slice.")
+      "key and by no other filter; chunked framing is forced before serialisation; a final status after an interim one is still forwarded (two-call simulation of every ResponseWriter), retries restart through the refusing rewind and replay exactly the retained bytes (shared with C06.R/B), the stand-alone proxy forces chunked framing unconditionally, writer types grow no optional net/http interfaces; wrappers forward their own status and slice.")
 
 claim("C04", "dominance / must-pass-through + confinement (escape) analysis + call-site uniqueness + channel typestate",
       "Decides for every order and grouping of pending-list replies: the worker start is control-dependent on the miss of the "
       "dedup lookup keyed by the very list element handed to the worker and every path through that branch records the key; the "
       "LRU never leaves the polling goroutine; its window is a constant ≥ 1000; every call site on the chain worker → ReadRequest "
       "→ callback → forwardRequest → ServeHTTP is unique and outside loops; the proxy has one send site for request IDs (not in a "
-      "loop, unbuffered channel) and every received ID is appended to the returned reply. Not decided: retries inside "
+      "loop, unbuffered channel) and every received ID is appended to the returned reply; the proxy's http.Server arms no read/write deadline. Not decided: retries inside "
       "ReverseProxy/Transport, LRU eviction order.")
 
 claim("C05", "deny-list over the static call closure of the response path + structural write-through / single-read rules",
@@ -54,7 +54,7 @@ claim("C07", "VTA call-graph reachability + lockset + shared-state inventory + c
       "under its mutex (exclusive lock, RLock does not count for mutating accessors); every shared map / non-goroutine-safe object "
       "is guarded, per-request or read-only after construction; the dedup LRU is confined to the poller; no unchecked type "
       "assertion on per-request paths; possibly-nil messages are nil-checked across the shim channels; no close of a multi-sender "
-      "channel; published response maps are not aliased; JSON-decoded pointer elements are nil-tested; channels are closed only by their sole sender; one worker goroutine per fetched request, started without waiting for earlier ones; offsets found by searching one value only slice that value; default 502 error handler. Not decided: panics inside dependencies.")
+      "channel; published response maps are not aliased; JSON-decoded pointer elements are nil-tested; channels are closed only by their sole sender; one worker goroutine per fetched request, started without waiting for earlier ones; offsets found by searching one value only slice that value; no nil result travels with an error that was tested nil; shim sessions are forgotten only by close and failed polls; only reasoned fields of the reverse proxy are set; default 502 error handler. Not decided: panics inside dependencies.")
 
 claim("C08", "interval abstract interpretation over SSA on a complete finite partition + loop-structure rule",
       "The delay function touches its argument through one comparison and one shift, so the 64-bit argument range splits into "
@@ -76,7 +76,7 @@ claim("C10", "lockset + must-pass-through under status valuation + literal-field
       "final status each path to wrapped.WriteHeader first deletes Set-Cookie from the forwarded header, the only Set-Cookie added "
       "is the session cookie literal on the no-session branch, Write cannot reach the wrapped writer before WriteHeader; 1xx does "
       "not latch; cookie literal attributes (HttpOnly, Path=/, Secure=!override, Expires=now+lifetime, name, fresh UUID); the "
-      "session cookie is dropped and other client cookies kept (equality truth table), jars and cookie URL are the caller's own; the shim's open endpoint restores r.URL before the session handler runs; the backend-facing client of a session carries that session's jar only. "
+      "session cookie is dropped and other client cookies kept (equality truth table), jars and cookie URL are the caller's own; the shim's open endpoint restores r.URL before the session handler runs; the backend-facing client of a session carries that session's jar only; the miss and the insertion of a session's jar happen under one hold of the cache mutex; the shim's open wrapper is the session handler of the configured cache. "
       "Not decided: cookiejar matching, LRU eviction, expiry arithmetic.")
 
 claim("C11", "sibling agreement by partial evaluation + channel inventory + provenance of message fields",
@@ -85,14 +85,14 @@ claim("C11", "sibling agreement by partial evaluation + channel inventory + prov
       "one producer/consumer goroutine each; the data endpoint walks the decoded slice by index synchronously and aborts on the "
       "first error; writer and reader move (Type, Data) of exactly one message / one ReadMessage result; polls return every "
       "received message in receive order; injection parses the whole message, only adds missing keys, keeps the type and falls "
-      "back to the original on error; session IDs are unique; a poll never discards messages it already took from the queue.")
+      "back to the original on error; session IDs are unique; a poll never discards messages it already took from the queue and reports an error only when the queue is closed and drained; each queue has one receiving side; the enqueueing select waits only for the queue and the connection's own end; a failed injection never returns before the enqueue.")
 
 claim("C12", "channel typestate + every-path-answers (must-pass-through) + status oracle + lifecycle pairing",
       "Decides for every call order and interleaving: no channel with concurrent senders is closed and closes happen once; every "
       "send reachable from an endpoint selects on the connection's done channel, receives have timer/default alternatives; every "
       "CFG path of the five endpoint handlers produces an HTTP answer with constant status in {200,400,408,500}; an unknown "
       "session leads only to 400, failed send/poll to 400, only close and a failed poll forget a session; concurrent opens get distinct IDs; a poll delivers what it received before reporting closed; reader/writer cancel the "
-      "connection context on every exit, a goroutine closes the backend socket after Done, Close() makes the writer exit. Not "
+      "connection context on every exit, a goroutine closes the backend socket after Done, Close() makes the writer exit (the close frame is not queued behind a test of the closed channel); session-table keys are of a comparable concrete type. Not "
       "decided: that gorilla's WriteMessage returns in bounded time on a dead peer.")
 
 claim("C13", "must-assign (definite overwrite) per URL field + who-may-dial table + mounting/dispatch dominance",
@@ -108,7 +108,7 @@ claim("C14", "partial evaluation on predicate results + predicate truth tables +
       "the status and lets the body pass; framed requests get the original body; frameable ones get the frame and the uncacheable / "
       "sameorigin headers; Write forwards iff writeBytes; 1xx does not latch; predicate truth tables (only GET, only 200, not "
       "attachment, content-type constants); the shim touches nothing (not even the body) unless Content-Type contains html, the new "
-      "body is prefix+original, and the script is inserted by Replace(…, 1) or by index and slice on the same string; rendered pages live in call-owned (not pooled or captured) buffers and the backend-facing proxy gets no Director/Transport override for injection.")
+      "body is prefix+original (the only body installed; the original is not closed on a served path), and the script is inserted by Replace(…, 1) or by index and slice on the same string; rendered pages live in call-owned (not pooled or captured) buffers and the backend-facing proxy gets no Director/Transport override for injection.")
 
 claim("C15", "sibling agreement (encoder/decoder) by partial evaluation + buffer-discipline provenance + pairing",
       "Byte-stream integrity for all sizes is not decided. Decides the codec/structure it rests on: Write sends one TextMessage "
@@ -121,7 +121,7 @@ claim("C16", "pairing: copy-loop completion must reach a close of the pair; acqu
       "Timing is not decided. Decides the structural obstacle the property names: in each bridging function, when either "
       "direction's io.Copy returns that goroutine closes the connections of the pair (directly or via a closure that does), "
       "independently of its sibling — an expired deadline or a conditional close is not accepted — and every acquired connection "
-      "(Upgrade, Dial, Accept, DialWebsocket) has a deferred Close; no SO_LINGER≥0 is armed and no raw descriptor is taken from a bridge socket; an acquisition is followed by its deferred Close on every path; a wrapper's Close never takes a lock that is held across blocking I/O; every websocket dial of the bridge is bounded (DefaultDialer, positive HandshakeTimeout or deadline context).")
+      "(Upgrade, Dial, Accept, DialWebsocket) has a deferred Close; no SO_LINGER≥0 is armed and no raw descriptor is taken from a bridge socket; an acquisition is followed by its deferred Close on every path; a wrapper's Close never takes a lock that is held across blocking I/O; every websocket dial of the bridge is bounded (DefaultDialer, positive HandshakeTimeout or deadline context); a wrapper's Close writes nothing unbounded to the websocket.")
 
 claim("C17", "dominance + provenance (validated value) + sibling agreement of Store implementations + partial evaluation",
       "Identity values come from App Engine. Decides for all callers and orders: in each agent endpoint checkBackendID dominates "
@@ -134,7 +134,7 @@ claim("C17", "dominance + provenance (validated value) + sibling agreement of St
 claim("C18", "dominance (liveness gate) + truth tables by partial evaluation + purity/determinism of the selection function",
       "Full equivalence with a longest-prefix specification is not decided. Decides: every backend ID returned by the lookups "
       "passed hasBackend(<same ID>, 5 min); hasBackend is 'seen and Since < timeout' on boundary values; the shared lookup runs only "
-      "when the user has no match; the lookup is keyed by the decoded r.URL.Path; failure is 404 before any store write; a successful registerBackendAsSeen has written the tracker with time.Now(); the selection function is pure and deterministic, updates "
+      "when the user has no match; the lookup is keyed by the decoded r.URL.Path; failure is 404 before any store write; a successful registerBackendAsSeen has written the tracker with time.Now(); the store's list call returns only after it ran, under the caller's context; the selection function is pure and deterministic, updates "
       "its best candidate only under HasPrefix(path, p) and only when there is none yet or len(p) > len(best), records ID and prefix "
       "of the same backend, and errors exactly when there is no match; neither loop is left early (every prefix of every backend is compared); no cache or memo sits in front of the routing decision.")
 
@@ -144,12 +144,12 @@ claim("C19", "provenance of IDs and bytes + sibling key agreement + path-sensiti
       "response is stored only when the request exists under that pair; datastore keys agree between write and read, blob parts are "
       "read with one ordered GetMulti in the recorded order without goroutines; Completed=true is set on the read request before it "
       "is written back and the pending query filters it; every error channel's capacity covers its possible senders, WaitGroup "
-      "counts match, both wait loops are bounded by WithTimeout(constant) and a time-out maps to 504; cache keys are injective in (backend ID, request ID); the GET response cache key is injective in (user, URL).")
+      "counts match, both wait loops are bounded by WithTimeout(constant), no cycle of them avoids the Done select, and a time-out maps to 504 on every path; the caching store delegates with its own parameters (context included); cache keys are injective in (backend ID, request ID); the GET response cache key is injective in (user, URL).")
 
 claim("C20", "dominance + who-may-call + partial evaluation of health/threshold comparisons + confinement of the polling context",
       "Exit times are not decided. Decides the ordering and counting structure: waitForHealthy dominates the adapter start and "
       "cannot return while enabled checks fail; only pollForNewRequests ← runAdapter ← main polls; healthCheck is nil only for 200; "
       "the failure counter is +1 on failure, 0 on success, starts at 0, and the terminating call is reachable exactly for counter ≥ "
       "threshold (clamped to ≥ 1); exactly SIGINT/SIGTERM are registered; after the signal main cancels the polling context, sleeps "
-      "the grace period, terminates — or returns at once without one; every list call is preceded by the non-blocking cancellation "
+      "the grace period, terminates — or returns at once without one (nothing deferred by main waits); every list call is preceded by the non-blocking cancellation "
       "test and performs exactly one proxy round trip; runAdapter gives the polling context to the poller only; the polling context never leaves pollForNewRequests and the shared HTTP client is not modified by the poller.")
